@@ -137,6 +137,8 @@ class FakeBackend:
             return (a == "START"), f"{a} on an operation the backend does not hold"
         if r.type != t:
             return False, "operation type changed"
+        if (u.parent_id or None) != (r.parent or None):
+            return False, "operation parent changed"       # B1: type and parent are part of an operation's identity
         if r.status in TERMINAL:
             return False, f"{a} on a terminal operation ({r.status})"
         if a == "START":
@@ -281,11 +283,24 @@ class FakeBackend:
         else:
             self.asyncs_since_sync += n_async
         ops = [self.to_operation(self.ops[i]) for i in touched]
+        k_ = self.plan.get("resp_page_size")
+        if k_ and len(ops) > k_:
+            # the updated state of a checkpoint response may be paginated like the initial state
+            self._resp_seq = getattr(self, "_resp_seq", 0) + 1
+            rest = [ops[j:j + k_] for j in range(k_, len(ops), k_)]
+            self._resp_pages = {f"r:{self._resp_seq}:{n}": (pg, f"r:{self._resp_seq}:{n + 1}" if n + 1 < len(rest) else None) for n, pg in enumerate(rest)}
+            return CheckpointOutput(checkpoint_token=self.token,
+                                    new_execution_state=CheckpointUpdatedExecutionState(operations=ops[:k_], next_marker=f"r:{self._resp_seq}:0"))
         return CheckpointOutput(checkpoint_token=self.token, new_execution_state=CheckpointUpdatedExecutionState(operations=ops))
 
     def get_execution_state(self, durable_execution_arn, checkpoint_token, next_marker, max_items=1000):
         from aws_durable_execution_sdk_python.lambda_service import StateOutput
 
+        if str(next_marker).startswith("r:"):
+            if self.hooks:
+                self.hooks("api.page", next_marker)
+            pg, nxt = self._resp_pages[next_marker]
+            return StateOutput(operations=pg, next_marker=nxt)
         idx = int(next_marker)
         pages = self._pages
         nxt = str(idx + 1) if idx + 1 < len(pages) else None
